@@ -233,14 +233,14 @@ def run_item(item):
                     st.violation(kind, f'[{w}] ' + detail, {'mode': 'threads', 'w': w, 'prefix': list(prefix)})
             try:
                 if nsh == 1:
-                    tx.explore(run_one, pb, on_exec=on_exec, fbound=2)
+                    tx.explore(run_one, pb, on_exec=on_exec, fbound=2, stop=lambda: st.extra.get('violations_total', 0) >= 12)
                 else:
                     root = run_one((), None)
                     if shard == 0:
                         on_exec((), root)
                     for i, kid in enumerate(tx.children(root.choices, 0, pb, 2)):
                         if i % nsh == shard:
-                            tx.explore(run_one, pb, root=kid, on_exec=on_exec, fbound=2)
+                            tx.explore(run_one, pb, root=kid, on_exec=on_exec, fbound=2, stop=lambda: st.extra.get('violations_total', 0) >= 12)
             except tx.Divergence as e:
                 raise common.MachineryError(f'world {w}: {e}')
         if not shard:
